@@ -369,6 +369,18 @@ class C19(Prop):
             if rng.random() < 0.5:
                 yield {'src': '\n\n'.join(parts), 'safeMode': mode, 'fault': None, 'expect': None, 'nkinds': len(kinds)}
                 continue
+            if rng.random() < 0.15:
+                # an undefined macro wherever macros are expanded, in the safe modes that honour macro definitions (bit 8) under
+                # each HTML policy: what the policy does to an element afterwards does not excuse the diagnostic
+                w = plain(rng)
+                host = rng.choice(['%s {m3} %s' % (w, plain(rng)), '# %s {m3}' % w, '- %s {m3}\n- x' % w, '..\n%s {m3}\n..' % w, '<http://a.com/|{m3}>',
+                                   'term:: %s {m3}' % w, '""\n%s {m3}\n""' % w, '{m3}', '*{m3}*', '`{m3}`', '{m3} ' + w, "{m1?} = 'kept {m3}'",
+                                   "{m4} = 'two\nlines {m3}'", '<div title="{m3}">', '<div>{m3}</div>', '<p>x {m3}</p>\n', '- item\n<div>{m3}</div>',
+                                   '..\n<section>{m3}</section>\n..', '<!-- {m3} -->', '%s <b>{m3}</b> %s' % (w, w), '.cls\n<div>{m3} %s</div>' % w,
+                                   '<image:{m3}>', '<<#{m3}>>'])
+                src = "{m1} = 'value one'\n\n%s {m1}\n\n%s\n\n%s" % (plain(rng), host, plain(rng))
+                yield {'src': src, 'safeMode': rng.choice([8, 9, 10, 11]), 'fault': 'undefined-macro', 'expect': 'undefined macro: {m3}', 'nkinds': 3}
+                continue
             f = rng.choice(self.FAULTS)
             if f == 'unterminated':
                 name, block = rng.choice([('code', '```\ncode'), ('code', '--\ncode'), ('quote', '""\nquote'), ('division', '..\ndiv'),
@@ -929,6 +941,21 @@ class C17(Prop):
                     yield {'src': head + '- ' + src, 'expected': '<ul><li>%s</li></ul>' % exp, 'safeMode': mode, 'n': 2, 'line_level': False}
                 else:
                     yield {'src': head + src, 'expected': '<p>%s</p>' % exp, 'safeMode': mode, 'n': 2, 'line_level': False}
+                continue
+            if rng.random() < 0.15:
+                # the escaped element is the very first thing of an item, a definition, a header (nothing in front of the
+                # backslash), with the shortest captions
+                w = rng.choice(['x', 'X', ' ', '1', 'a', 'v'])
+                u = rng.choice(['http://example.com/', 'u'])
+                e = rng.choice(['[%s](%s)' % (w, u), '^[%s](%s)' % (w, u), '![%s](%s)' % (w, u), '*%s*' % w.strip(), '`%s`' % w.strip(), '<%s|%s>' % ('http://e.com/', w),
+                                '{m1}', '<b>', '&amp;', '<<#a1>>', '_%s_' % w.strip()])
+                if e in ('**', '``', '__'):
+                    e = '*x*'
+                rest = rng.choice(['', ' ' + plain(rng, 1, 2)])
+                ctxs = [('- \\%s%s', '<ul><li>%s%s</li></ul>'), ('. \\%s%s', '<ol><li>%s%s</li></ol>'), ('T:: \\%s%s', '<dl><dt>T</dt><dd>%s%s</dd></dl>'),
+                        ('# \\%s%s', '<h1>%s%s</h1>'), ('- a\n- \\%s%s', '<ul><li>a</li><li>%s%s</li></ul>'), ('** \\%s%s', '<ul><li>%s%s</li></ul>')]
+                cs, ce = rng.choice(ctxs)
+                yield {'src': head + cs % (e, rest), 'expected': ce % (esc(e), esc(rest)), 'safeMode': mode, 'n': 2, 'line_level': False}
                 continue
             if rng.random() < 0.6:
                 n = rng.randint(1, 8)
